@@ -80,7 +80,7 @@ Print Assumptions C16_literals_reviewed.
    translated structurally: the one mutable flag, the sequence of ifs, else-if chains, the unwrap;
    configuration getters and the directory probes through the table in rs2coq/targets.txt). It is
    the modelled validator, so the theorems above hold of the code as it is written today. *)
-Require Import RV.Model.Bytes RV.Model.Message RV.Gen.Code RV.Proofs.CodeFacts.
+Require Import RV.Model.Bytes RV.Model.Message RV.Gen.Code RV.Proofs.CodeConfig.
 
 Theorem C16_translated_validator_is_model :
   forall c, to_vres (gen_is_valid_config c) = is_valid_config c.
